@@ -256,6 +256,40 @@ func c13Model(c *hx.Ctx, r *hx.RNG) {
 	if !hx.SameState(pre, hx.Snapshot(x)) {
 		c.Violate("operand-modified", what+": formatting changed x", "")
 	}
+	// Format: sign, width, '+', ' ', '0', '-' on top of the same digits (the float64 differential validates this emulation's
+	// reference, fmt itself; here it is applied to values no float64 can hold, in all six modes)
+	if r.Chance(35) && (ft == 'e' || ft == 'E' || ft == 'f' || ft == 'g' || ft == 'G') && prec >= 0 {
+		verb := ft
+		if ft == 'f' && r.Bool() {
+			verb = 'F'
+		}
+		flags := ""
+		for _, fl := range "+ -0" {
+			if r.Chance(30) {
+				flags += string(fl)
+			}
+		}
+		width := -1
+		if r.Chance(70) {
+			width = r.Range(0, 60)
+		}
+		format := "%" + flags
+		if width >= 0 {
+			format += strconv.Itoa(width)
+		}
+		format += "." + strconv.Itoa(prec) + string(verb)
+		wantF := fmtEmulate(expectText(v, mode, ft, prec), flags, width, v.Form == oracle.Inf)
+		var gotF string
+		if pi := hx.Try(func() { gotF = fmt.Sprintf(format, x) }); pi != nil {
+			c.Violate("panic", fmt.Sprintf("Sprintf(%q) of %s: %s panic %q", format, v.Full(), pi.Class, pi.Text), "")
+			return
+		}
+		c.Count("fmt_model_cases", 1)
+		if gotF != wantF {
+			c.Violate("wrong-text", fmt.Sprintf("Sprintf(%q) of %s mode=%s = %q, want %q", format, v.Full(), oracle.ModeNames[mode], trunc120(gotF), trunc120(wantF)), carryPastMaxExp(v, mode, ft, prec))
+			return
+		}
+	}
 	// String() is Text('g', 10); %s and an unknown verb go through Format
 	if r.Chance(10) {
 		if s := x.String(); s != expectText(v, mode, 'g', 10) {
@@ -327,4 +361,35 @@ func carryPastMaxExp(v oracle.Val, mode int, ft byte, prec int) string {
 		return "format_rounding_carries_past_max_exp"
 	}
 	return ""
+}
+
+// fmtEmulate applies fmt's sign, width and padding rules for floating-point verbs to a number text produced without flags.
+func fmtEmulate(body, flags string, width int, isInf bool) string {
+	plus, space, minus, zero := strings.Contains(flags, "+"), strings.Contains(flags, " "), strings.Contains(flags, "-"), strings.Contains(flags, "0")
+	sign := ""
+	switch {
+	case strings.HasPrefix(body, "-"):
+		sign, body = "-", body[1:]
+	case strings.HasPrefix(body, "+"): // +Inf
+		body = body[1:]
+		sign = "+"
+		if space && !plus {
+			sign = " "
+		}
+	case plus:
+		sign = "+"
+	case space:
+		sign = " "
+	}
+	pad := 0
+	if width > len(sign)+len(body) {
+		pad = width - len(sign) - len(body)
+	}
+	switch {
+	case minus:
+		return sign + body + strings.Repeat(" ", pad)
+	case zero && !isInf:
+		return sign + strings.Repeat("0", pad) + body
+	}
+	return strings.Repeat(" ", pad) + sign + body
 }
